@@ -10,6 +10,8 @@ import DTML.Lemmas.Fuel
 import DTML.Lemmas.Print
 import DTML.Lemmas.ScanGen
 import DTML.GenJoin
+import DTML.GenParseLoop
+import DTML.Lemmas.ParseLoop
 set_option linter.unusedVariables false
 namespace DTML.Props.C01
 open DTML.Scan DTML.Parse
@@ -686,5 +688,148 @@ theorem gen_block_loop_nil (env : Env) (fuel : Nat) (step : PyBlock → List Pie
     blocksLoopGen step [] rendered st = appendTo rendered (renderBlocks env (fuel + 1) [] st) := by
   simp [blocksLoopGen, renderBlocks, appendTo]
 end BlockLoop
+
+
+/-! #### the main loop of `String.parse` as translated from the source on every run (DTML/GenParseLoop.lean)
+
+`GenParseLoop.bodyGen` is one round of `while mo:` (`l_ = mo.start(0)`, `_parseTag`, `s = text[start:l_]`,
+`if s: result.append(s)`, `start = l_ + len(tag)`, block tag -> `parse_block` / simple tag -> `command(args)`,
+`simple_form`, `result.append(r)`), `loopGen` the loop with the next `tagre.search(text, start)`, `epilogueGen` the
+statements after it - all read off the source by harness/trans_parseloop.py, with the scanner, `_parseTag`,
+`parse_block` and the commands as parameters. -/
+
+section ParseLoop
+open DTML.GenParseLoop DTML.Lemmas.ParseLoop
+variable {M A C R E : Type}
+
+/-- one round of the loop is the model's `parseStep` -/
+theorem gen_parse_body_is_model (P : Params M A C R E) (text : Text) (start : Nat) (result : List (Item R)) (mo : M) :
+    bodyGen P text start result mo = parseStep P text start result mo := by
+  unfold bodyGen parseStep appendLit
+  rfl
+
+/-- the statements after the loop: `text = text[start:]; if text: result.append(text); return result` -/
+theorem gen_parse_epilogue_is_model (text : Text) (start : Nat) (result : List (Item R)) :
+    (epilogueGen text start result : Except E (List (Item R))) = .ok (appendLit result (text.drop start)) := by
+  unfold epilogueGen appendLit pyFrom
+  rfl
+
+/-- the whole loop, for every fuel: the search at the end of the body is `tagre.search(text, start)` on the new start -/
+theorem gen_parse_loop_is_model (P : Params M A C R E) (text : Text) :
+    ∀ (fuel start : Nat) (result : List (Item R)) (mo : Option M),
+      loopGen P text fuel start result mo = parseLoop P text fuel start result mo := by
+  intro fuel
+  induction fuel with
+  | zero => intro start result mo; simp only [loopGen, parseLoop, gen_parse_epilogue_is_model]
+  | succ n ih =>
+    intro start result mo
+    cases mo with
+    | none => simp only [loopGen, parseLoop, gen_parse_epilogue_is_model]
+    | some m =>
+      simp only [loopGen, parseLoop, gen_parse_body_is_model]
+      cases parseStep P text start result m with
+      | error e => rfl
+      | ok v => obtain ⟨s, r⟩ := v; simp only [ih, nextGen]
+
+/-- `String.parse(text, start, result)` = the model's loop entered with the first `tagre.search(text, start)` -/
+theorem gen_parse_is_model (P : Params M A C R E) (text : Text) (start : Nat) (result : List (Item R)) (fuel : Nat) :
+    parseGen P text start result fuel = parseLoop P text fuel start result (P.search text start) := by
+  unfold parseGen
+  exact gen_parse_loop_is_model P text fuel start result _
+
+/-- **Literal text is carried over verbatim by the main loop of `String.parse`** (the source's own statements, for any
+scanner, `_parseTag`, `parse_block` and commands): if the scanner's matches lie at or after `start`, the tag text is
+what stands at the match, and `parse_block` only appends and does not go backwards (`Sound`), then a parse that ends
+without a ParseError has appended exactly `segItems segs tail` for a list of segments (literal, tag text, what
+`parse_block` consumed, the tag's items) that tile the text from `start` on: `segText segs tail = text[start:]`.
+So every literal appended is the slice between the end of one tag (or block) and the start of the next, none is
+empty (`litItems`), nothing is lost or duplicated; a simple tag consumes its own text only (`SimpleOk`: `start = l_ + len(tag)`)
+and contributes one compiled item.  Holds for every fuel. -/
+theorem gen_parse_literals_verbatim (P : Params M A C R E) (text : Text) (hP : Sound P text)
+    (start : Nat) (result : List (Item R)) (fuel : Nat) (out : List (Item R))
+    (h : parseGen P text start result fuel = .ok out) :
+    ∃ (segs : List (Seg R)) (tail : Text), (∀ s ∈ segs, SimpleOk s) ∧
+      out = result ++ segItems segs tail ∧ segText segs tail = text.drop start := by
+  rw [gen_parse_is_model] at h
+  obtain ⟨segs, tail, h1, h2, h3⟩ := parseLoop_segments P text hP fuel start result _ out
+    (fun m hm => ⟨hP.search_ge _ _ hm, _, hm⟩) h
+  exact ⟨segs, tail, h1, h2, h3.symm⟩
+
+/-- the model's scanner and tags as parameters of the loop: a match is (offset, token), every tag is a simple tag whose
+compiled form is the token itself -/
+def modelParams (syn : Syntax) : Params (Nat × Tok) Tok Unit Tok Unit where
+  search text start := (scan syn (text.drop start)).map (fun r => (start + r.1.length, r.2.1))
+  moStart m := m.1
+  parseTag m := .ok (m.2.text, m.2, (), [])
+  hasBlockContinuations _ := false
+  parseBlock _ s r _ _ _ _ := .ok (s, r)
+  isVar _ := false
+  callVar _ a _ := .ok a
+  call _ a := .ok a
+  hasSimpleForm _ := false
+  simpleForm r := r
+  errorAt e _ _ := e
+  errorIn e _ _ _ := e
+
+/-- the items the model's token list stands for -/
+def tokItems (t : List (Text × Tok) × Text) : List (Item Tok) :=
+  t.1.flatMap (fun p => litItems p.1 ++ [.node p.2]) ++ litItems t.2
+
+theorem parseLoop_tokens (syn : Syntax) (text : Text) : ∀ (fuel start : Nat) (result : List (Item Tok)),
+    parseLoop (modelParams syn) text fuel start result ((modelParams syn).search text start) =
+      .ok (result ++ tokItems (tokensAux syn fuel (text.drop start))) := by
+  intro fuel
+  induction fuel with
+  | zero => intro start result; simp [parseLoop, tokensAux, tokItems, appendLit_eq]
+  | succ n ih =>
+    intro start result
+    cases hs : scan syn (text.drop start) with
+    | none => simp [parseLoop, tokensAux, tokItems, appendLit_eq, modelParams, hs]
+    | some v =>
+      obtain ⟨lit, tk, rest⟩ := v
+      have hrec := scan_reconstruct syn _ lit rest tk hs
+      have hlit : pySlice text start (start + lit.length) = lit := by
+        simp only [pySlice, Nat.add_sub_cancel_left, ← hrec, List.append_assoc, List.take_left']
+      have hrest : text.drop (start + lit.length + tk.text.length) = rest := by
+        rw [← List.drop_drop, ← List.drop_drop, ← hrec, List.append_assoc, List.drop_left, List.drop_left]
+      have hsearch : (modelParams syn).search text start = some (start + lit.length, tk) := by
+        simp [modelParams, hs]
+      rw [hsearch]
+      have hstep : parseStep (modelParams syn) text start result (start + lit.length, tk) =
+          .ok (start + lit.length + tk.text.length, result ++ litItems lit ++ [.node tk]) := by
+        simp [parseStep, modelParams, hlit, appendLit_eq]
+      simp only [parseLoop, hstep, ih, hrest, tokensAux, hs, tokItems, List.flatMap_cons, List.append_assoc]
+
+/-- **The loop of the source, run with the model's scanner, is the model's tokeniser**: on a source all of whose tags
+are simple tags, `String.parse` appends exactly the literals (the non-empty ones) and tags of `Scan.tokens` - the
+list `Parse.buildAux` consumes -, in order, and the trailing literal. -/
+theorem gen_parse_is_tokens (syn : Syntax) (text : Text) :
+    parseGen (modelParams syn) text 0 [] (text.length + 1) = .ok (tokItems (tokens syn text)) := by
+  rw [gen_parse_is_model, parseLoop_tokens]
+  simp [tokens]
+
+/-- non-vacuity of `Sound`: the model's scanner with simple tags satisfies it, for every text -/
+theorem modelParams_sound (syn : Syntax) (text : Text) : Sound (modelParams syn) text where
+  search_ge := by
+    intro start mo h
+    simp only [modelParams, Option.map_eq_some_iff] at h
+    obtain ⟨r, _, rfl⟩ := h
+    exact Nat.le_add_right _ _
+  tag_at := by
+    intro start mo tag a c co hs h
+    simp only [modelParams, Option.map_eq_some_iff] at hs
+    obtain ⟨⟨lit, tk, rest⟩, hscan, rfl⟩ := hs
+    simp only [modelParams, Except.ok.injEq, Prod.mk.injEq] at h
+    have hrec := scan_reconstruct syn _ lit rest tk hscan
+    refine ⟨rest, ?_⟩
+    rw [← h.1]
+    show tk.text ++ rest = List.drop (start + lit.length) text
+    rw [← List.drop_drop, ← hrec, List.append_assoc, List.drop_left]
+  block_mono := by
+    intro start result tag l a c start' result' h
+    simp only [modelParams, Except.ok.injEq, Prod.mk.injEq] at h
+    exact ⟨by omega, [], by simp [h.2]⟩
+
+end ParseLoop
 
 end DTML.Props.C01
